@@ -4,6 +4,7 @@ import (
 	"bytes"
 	"context"
 	"fmt"
+	"runtime"
 	"strings"
 	"time"
 
@@ -30,6 +31,10 @@ import (
 // source -> sink. They differ in where uploads go: read caching uploads to the
 // slow backend (= source), read fallback to the primary backend (= sink).
 func seqCase(c *run.Case, w *run.Worker, r *gen.Rng) {
+	// Few Ps: a sequential history has next to no parallelism, and handing
+	// every guarded call to an idle P costs more than the call itself.
+	old := runtime.GOMAXPROCS(r.Pick(1, 2, 2, 4))
+	defer runtime.GOMAXPROCS(old)
 	clk := newVClock()
 	e := newEnv(c, clk)
 	e.seed = r.Uint64()
@@ -114,7 +119,7 @@ func seqCase(c *run.Case, w *run.Worker, r *gen.Rng) {
 		case k < 42: // Get
 			var data []byte
 			var err error
-			if !seqCall(c, e, fmt.Sprintf("Get(%d) through %s over %v", o.idx, kind, st), func() { data, err = comp.Get(ctx, o.d).ToByteSlice(1 << 24) }) {
+			if !seqCall(c, e, cancel, fmt.Sprintf("Get(%d) through %s over %v", o.idx, kind, st), func() { data, err = comp.Get(ctx, o.d).ToByteSlice(1 << 24) }) {
 				return
 			}
 			nf, canc := e.faultsOf(op)
@@ -132,7 +137,7 @@ func seqCase(c *run.Case, w *run.Worker, r *gen.Rng) {
 		case k < 50: // GetFromComposite
 			var data []byte
 			var err error
-			if !seqCall(c, e, fmt.Sprintf("GetFromComposite(%d) through %s over %v", o.idx, kind, st), func() {
+			if !seqCall(c, e, cancel, fmt.Sprintf("GetFromComposite(%d) through %s over %v", o.idx, kind, st), func() {
 				data, err = comp.GetFromComposite(ctx, o.d, o.child, prefixSlicer{}).ToByteSlice(1 << 24)
 			}) {
 				return
@@ -152,7 +157,7 @@ func seqCase(c *run.Case, w *run.Worker, r *gen.Rng) {
 		case k < 65: // Put
 			b, tr := model.NewTrackedCASBuffer(o.d, model.SourceSpec{Data: o.data, Chunks: r.Chunking(len(o.data), true)}, buffer.UserProvided)
 			var err error
-			if !seqCall(c, e, fmt.Sprintf("Put(%d) through %s", o.idx, kind), func() { err = comp.Put(ctx, o.d, b) }) {
+			if !seqCall(c, e, cancel, fmt.Sprintf("Put(%d) through %s", o.idx, kind), func() { err = comp.Put(ctx, o.d, b) }) {
 				return
 			}
 			nf, canc := e.faultsOf(op)
@@ -201,7 +206,7 @@ func seqCase(c *run.Case, w *run.Worker, r *gen.Rng) {
 			}
 			var m digest.Set
 			var err error
-			if !seqCall(c, e, fmt.Sprintf("FindMissing(%v) through %s over %v", idx, kind, st), func() { m, err = comp.FindMissing(ctx, setOf(objs, idx)) }) {
+			if !seqCall(c, e, cancel, fmt.Sprintf("FindMissing(%v) through %s over %v", idx, kind, st), func() { m, err = comp.FindMissing(ctx, setOf(objs, idx)) }) {
 				return
 			}
 			nf, canc := e.faultsOf(op)
@@ -373,6 +378,8 @@ func checkCopied(c *run.Case, w *run.Worker, site, op string, st *stackSpec, sin
 // boundary clock advances (duration-1, duration, duration+1), cache sizes 1..4.
 
 func ecacheCase(c *run.Case, w *run.Worker, r *gen.Rng) {
+	old := runtime.GOMAXPROCS(1)
+	defer runtime.GOMAXPROCS(old)
 	clk := newVClock()
 	e := newEnv(c, clk)
 	e.seed = r.Uint64()
@@ -450,7 +457,7 @@ func ecacheCase(c *run.Case, w *run.Worker, r *gen.Rng) {
 				ev0 := e.eventCount()
 				var m digest.Set
 				var err error
-				if !seqCall(c, e, "FindMissing through the existence-caching decorator", func() { m, err = ba.FindMissing(ctx, setOf(objs, idx)) }) {
+				if !seqCall(c, e, nil, "FindMissing through the existence-caching decorator", func() { m, err = ba.FindMissing(ctx, setOf(objs, idx)) }) {
 					return
 				}
 				evs := e.snapshotEvents()
